@@ -115,6 +115,8 @@ def regenerate():
     notes["to_json"] = translate_tojson.generate(REPO, os.path.join(COQ, "Gen", "SrcToJson.v"), os.path.join(HARNESS, "fallback"))
     import translate_flags
     notes["flags"] = translate_flags.generate(REPO, os.path.join(COQ, "Gen", "SrcFlags.v"), os.path.join(HARNESS, "fallback"))
+    import translate_stage1
+    notes["stage1"] = translate_stage1.generate(REPO, os.path.join(COQ, "Gen", "SrcStage1.v"), os.path.join(HARNESS, "fallback"))
     import translate_cli
     notes["cli"] = translate_cli.generate(REPO, os.path.join(COQ, "Gen", "SrcCli.v"), os.path.join(HARNESS, "fallback"))
     import translate_deps
